@@ -222,6 +222,31 @@ Proof.
   - cbn [compactb]. rewrite Hn, IH1, IH2, IH3. reflexivity.
 Qed.
 
+(* ... and the only one: a compact list of entries is recovered from its expansion, so any [ molecules ] section with
+   positive counts, differing neighbours and the right expansion IS the one written *)
+Definition head_differs (k : nat) (g : list (nat * nat)) : bool :=
+  match g with (k', _) :: _ => negb (Nat.eqb k k') | [] => true end.
+
+Lemma group_counts_run k c l : head_differs k (group_counts l) = true ->
+  group_counts (repeat k (S c) ++ l) = (k, S c) :: group_counts l.
+Proof.
+  intros H. induction c as [|c IH].
+  - cbn [repeat app group_counts]. destruct (group_counts l) as [|[k' c'] rest]; [reflexivity|].
+    cbn in H. destruct (Nat.eqb k k'); [discriminate|reflexivity].
+  - change (repeat k (S (S c)) ++ l) with (k :: (repeat k (S c) ++ l)). cbn [group_counts]. rewrite IH.
+    rewrite Nat.eqb_refl. reflexivity.
+Qed.
+
+Lemma compact_unique g : compactb g = true -> group_counts (expand g) = g.
+Proof.
+  induction g as [|[k c] r IH]; [reflexivity|].
+  cbn [compactb]. intros H. apply andb_prop in H as [H H3]. apply andb_prop in H as [H1 H2].
+  specialize (IH H3). unfold expand in *. cbn [flat_map fst snd].
+  destruct c as [|c]; [discriminate|].
+  rewrite group_counts_run; [rewrite IH; reflexivity|].
+  rewrite IH. exact H2.
+Qed.
+
 Lemma group_counts_in names n : In n (map fst (group_counts names)) <-> In n names.
 Proof.
   rewrite <- (group_counts_expand names) at 2. unfold expand.
